@@ -172,7 +172,9 @@ def shape_diff(a, b, tol, vscale=1.0, vinv=None):
     # times the scale of the viewport transform applied on reading (factor 2 for the source's own rounding)
     eps = 2 * (written_delta(a, vinv) + 1e-12) * max(local_extent(a), local_extent(b)) * max(1.0, vscale)
     big = max([1.0] + [abs(v) for sg in a["abs"] for f in ("start", "end") if sg.get(f) for v in sg[f] if v is not None])
-    d = dg.pl.obs_segs_diff(a["abs"], b["abs"], max(tol, eps), arc_tol=max(4 * tol, 4 * eps / big))
+    # a point of an arc is the image of a point of the source ellipse like any other point: the same absolute bound (x2 for the
+    # re-derived parameterisation), not a bound relative to the corner arc's own small coordinates
+    d = dg.pl.obs_segs_diff(a["abs"], b["abs"], max(tol, eps), arc_tol=max(4 * tol, 4 * eps / big), arc_abs=2 * max(tol, eps))
     if d:
         return "geometry: " + d
     fa, fb = a["fill"], b["fill"]
